@@ -1,2 +1,48 @@
-(* C03 - reading back what the library wrote (theorems added as they are proved) *)
-From BSE Require Import Model.Val Model.Matrix.
+(* C03 - reading back what the library wrote never silently changes the basis.
+   PARTIAL by design (DESIGN.md): what is proved is the numeric-table layer shared by the writers and readers -
+   printing.write_matrix and readers.helpers.parse_primitive_matrix: every digit of every number survives the trip, only
+   the exponent marker is normalised.  The per-format layout code of the fourteen writer/reader pairs is not modelled: for
+   it the decision is write / read-back exploration compared by exact value (vlib/props/c03.py). *)
+From BSE Require Import Model.Val Model.Manip Model.Text Model.Matrix Proofs.MatrixDefs.
+From BSE Require Proofs.MatrixSpec.
+
+Theorem floating_is_cell : floating_is_cell_stmt.
+Proof. exact MatrixSpec.floating_is_cell. Qed.
+Print Assumptions floating_is_cell.
+
+(* every cell of a row is exactly one white-space delimited token of the printed line, in order; no other tokens *)
+Theorem write_row_tokens : write_row_tokens_stmt.
+Proof. exact MatrixSpec.write_row_tokens. Qed.
+Print Assumptions write_row_tokens.
+
+Theorem write_matrix_total : write_matrix_total_stmt.
+Proof. exact MatrixSpec.write_matrix_total. Qed.
+Print Assumptions write_matrix_total.
+
+(* one line per primitive whose tokens are that row of the matrix.  _partial: for cells made of bytes below 128 (true of every
+   number string); with a byte sequence that Python's splitlines treats as a line boundary inside a cell the statement is
+   false (MatrixSpec.write_matrix_tokens_counterexample) *)
+Theorem write_matrix_tokens_partial :
+  forall mat pps n text, rectangular mat n -> Forall (Forall cell_ok) mat ->
+    Forall (Forall (fun c => sall (fun ch => Nat.ltb (nat_of_ascii ch) 128) (cell_str c) = true)) mat ->
+    List.length mat <= List.length pps ->
+    write_matrix mat pps false = inr text ->
+    map (fun l => tokens_acc l "") (splitlines text) = map (map cell_str) (transpose_cells mat).
+Proof. exact MatrixSpec.write_matrix_tokens_partial. Qed.
+Print Assumptions write_matrix_tokens_partial.
+
+(* write then parse: exponents and every contraction's coefficients come back digit for digit (with or without E -> D) *)
+Theorem matrix_roundtrip : matrix_roundtrip_stmt.
+Proof. exact MatrixSpec.matrix_roundtrip. Qed.
+Print Assumptions matrix_roundtrip.
+
+Theorem norm_keeps_digits : norm_keeps_digits_stmt.
+Proof. exact MatrixSpec.norm_keeps_digits. Qed.
+Print Assumptions norm_keeps_digits.
+
+Example roundtrip_demo :
+  match write_matrix [[CStr "130.70932"; CStr "0.5"]; [CStr "1.5E-01"; CStr "-0.25"]] [8; 31]%Z true with
+  | inr t => parse_primitive_matrix (splitlines t) = inr (["130.70932"; "0.5"], [["1.5E-01"; "-0.25"]])
+  | inl _ => False
+  end.
+Proof. vm_compute. reflexivity. Qed.
